@@ -4,8 +4,12 @@
    * the heap object store: BOTH implementations keep heap objects in vm/heap.rs `HeapStorage`
      (= SlotMap<DefaultKey, HeapObject>; wasm.rs RuntimeState.heap has the same type and calls the same
      heap::heap_retain / heap::heap_release), so the transcription of Heap/Model.v (slotmap 1.0.7 basic.rs,
-     heap.rs) is reused for both; a handle travels as the u64 image of the key (VM: Machine::to_value /
-     get_as = transmute_copy; WASM: std::mem::transmute::<HeapIdx, u64>): Heap.Model.raw_of_key / key_of_raw. *)
+     heap.rs) is reused for both; a handle travels as a u64 image of the key, and the two implementations use
+     DIFFERENT images ([henc]): the VM transmutes the key (Machine::to_value / get_as = transmute_copy:
+     Heap.Model.raw_of_key / key_of_raw, index in the high half), the WASM host uses slotmap's FFI conversion
+     (wasm.rs heap_idx_to_word / heap_idx_from_word = KeyData::as_ffi / from_ffi: version in the high half, and
+     from_ffi forces the version odd, so a word that is no handle — the zero word — never names the vacant
+     sentinel slot). *)
 From Coq Require Import List ZArith NArith Bool.
 From Mimium Require Import Heap.Model Lmmm.Machine Prims.Float Prims.StateOps Prims.Spec.
 Import ListNotations.
@@ -69,19 +73,31 @@ End Run.
 (* ---------------------------------------------------------------------------------------------- *)
 (* heap.rs through the slot map (Heap/Model.v): HeapObject { refcount, size, data }                *)
 
+(* slotmap KeyData::as_ffi: (version << 32) | idx;  from_ffi: idx = low 32 bits, version = (high 32 bits) | 1 *)
+Definition ffi_of_key (k : key) : N := N.lor (N.shiftl (kver k) 32) (kidx k).
+Definition key_of_ffi (r : N) : key := mkKey (N.land r 4294967295) (N.lor (N.shiftr r 32) 1).
+
+(* how an implementation turns a key into the handle word and back *)
+Record henc := mkHenc { h_enc : key -> word; h_dec : word -> key }.
+Definition enc_transmute : henc := mkHenc raw_of_key key_of_raw.      (* the VM *)
+Definition enc_ffi : henc := mkHenc ffi_of_key key_of_ffi.            (* the WASM host *)
+
+Section HeapOps.
+Variable E : henc.
+
 (* HeapObject::new(size): refcount 1, zeroed data;  HeapObject::with_data(data) *)
 Definition hp_alloc (h : store) (data : list word) : store * ires :=
-  let (h', k) := st_alloc h data in (h', IHandle (raw_of_key k)).
+  let (h', k) := st_alloc h data in (h', IHandle (h_enc E k)).
 
 (* heap::heap_retain / heap::heap_release on the raw handle *)
 Definition hp_retain (h : store) (raw : word) : store * ires :=
-  match heap_retain h (key_of_raw raw) with
+  match heap_retain h (h_dec E raw) with
   | (h', RCount n) => (h', ICount n)
   | (h', _) => (h', IInvalid)
   end.
 
 Definition hp_release (h : store) (raw : word) : store * ires :=
-  match heap_release h (key_of_raw raw) with
+  match heap_release h (h_dec E raw) with
   | (h', RCount n) => (h', ICount n)
   | (h', _) => (h', IInvalid)
   end.
@@ -89,7 +105,7 @@ Definition hp_release (h : store) (raw : word) : store * ires :=
 (* heap.get(obj).map(|o| &o.data[..size]).expect("heap_load: invalid heap index")
    (the slice inside `map` panics first when the object is shorter than `size`) *)
 Definition hp_load (h : store) (raw : word) (size : N) : ires :=
-  match sm_get h (key_of_raw raw) with
+  match sm_get h (h_dec E raw) with
   | Some ob => if size <=? N.of_nat (length (odata ob)) then IWords (firstn (N.to_nat size) (odata ob))
                else IFault FOutOfRange
   | None => IFault FInvalidHandle
@@ -97,10 +113,11 @@ Definition hp_load (h : store) (raw : word) (size : N) : ires :=
 
 (* heap.get_mut(obj).map(|o| &mut o.data[..size]).expect(..).copy_from_slice(&src[..size]), size = |src| *)
 Definition hp_store (h : store) (raw : word) (src : list word) : store * ires :=
-  match sm_get h (key_of_raw raw) with
+  match sm_get h (h_dec E raw) with
   | Some ob =>
       if N.of_nat (length src) <=? N.of_nat (length (odata ob))
-      then (sm_set h (key_of_raw raw) (mkObj (orc ob) (oclosed ob) (src ++ skipn (length src) (odata ob))), IUnit)
+      then (sm_set h (h_dec E raw) (mkObj (orc ob) (oclosed ob) (src ++ skipn (length src) (odata ob))), IUnit)
       else (h, IFault FOutOfRange)
   | None => (h, IFault FInvalidHandle)
   end.
+End HeapOps.
